@@ -228,7 +228,6 @@ def history_probe(ctx, res, fn, items, label, k=None, describe=None):
     (a cache keyed too coarsely, a shared mutable default, a mutated argument): the functional model no longer
     describes the code, reported as a correspondence failure `<prop>:corr:depends-on-earlier-calls:<label>` with the
     input and both answers.  Answers that mention an abandoned solver call ('slow') are not compared."""
-    import multiprocessing as mp
     items = list(items)
     if k is None:
         k = 120 if ctx.quick else 600
@@ -236,9 +235,7 @@ def history_probe(ctx, res, fn, items, label, k=None, describe=None):
         items = ctx.rng.sample(items, k)
     if len(items) < 2:
         return
-    mpc = mp.get_context("fork")
-    with mpc.Pool(2) as pool:
-        fwd, bwd = pool.map(_run_sequence, [(fn, items), (fn, items[::-1])])
+    fwd, bwd = fork_map(_run_sequence, [(fn, items), (fn, items[::-1])], nproc=2, chunksize=1)
     bwd = bwd[::-1]
     res.count("history-probe:%s:inputs" % label, len(items))
     for x, a, b in zip(items, fwd, bwd):
@@ -249,16 +246,113 @@ def history_probe(ctx, res, fn, items, label, k=None, describe=None):
             break
 
 
+def fork_map(fn, items, nproc=None, chunksize=None, timeout=None):
+    """[fn(x) for x in items] computed in forked worker processes (always forked, also for one worker or one item).
+
+    Deliberately not a `multiprocessing.Pool`: a pool shares task and result queues guarded by cross-process locks, and a
+    worker that dies or is killed while it holds one (or a replacement worker forked by the pool's handler thread while
+    another thread holds an interpreter lock) leaves the whole pool waiting for ever - observed as checks that never
+    returned.  Here every worker gets a fixed share of the items (chunks of `chunksize` dealt round-robin, processed in
+    order, so state inside a worker carries from chunk to chunk as it did in a pool), writes its pickled results to its
+    own file in the run's scratch directory and exits; nothing is shared.  The parent is single-threaded when it forks.
+    A worker that raises makes the call raise; a worker that is killed or outlives `timeout` seconds
+    (VERIF_POOL_TIMEOUT, default 3000) makes it raise RuntimeError after all workers have been killed."""
+    import pickle
+    import signal
+    import tempfile
+    import time
+    import traceback
+    items = list(items)
+    if not items:
+        return []
+    if nproc is None:
+        nproc = min(16, os.cpu_count() or 1)
+    nproc = max(1, min(nproc, len(items)))
+    if chunksize is None:
+        chunksize = max(1, len(items) // (nproc * 8))
+    if timeout is None:
+        timeout = float(os.environ.get("VERIF_POOL_TIMEOUT", "3000"))
+    chunks = [list(range(i, min(i + chunksize, len(items)))) for i in range(0, len(items), chunksize)]
+    shares = [[i for c in chunks[w::nproc] for i in c] for w in range(nproc)]
+    shares = [sh for sh in shares if sh]
+    sys.stdout.flush()
+    sys.stderr.flush()
+    outdir = tempfile.mkdtemp(prefix="forkmap-")
+    pids = {}
+    try:
+        for w, share in enumerate(shares):
+            path = os.path.join(outdir, "%d.pkl" % w)
+            pid = os.fork()
+            if pid == 0:
+                code = 0
+                try:
+                    signal.signal(signal.SIGTERM, signal.SIG_DFL)
+                    try:
+                        payload = ("ok", [(i, fn(items[i])) for i in share])
+                    except BaseException as e:  # noqa: BLE001
+                        payload = ("raised", "%s: %s" % (type(e).__name__, e), traceback.format_exc())
+                    with open(path + ".tmp", "wb") as f:
+                        pickle.dump(payload, f, protocol=pickle.HIGHEST_PROTOCOL)
+                    os.rename(path + ".tmp", path)
+                except BaseException:  # noqa: BLE001
+                    code = 1
+                    try:
+                        traceback.print_exc()
+                    except BaseException:  # noqa: BLE001
+                        pass
+                finally:
+                    try:
+                        sys.stdout.flush()
+                        sys.stderr.flush()
+                    except BaseException:  # noqa: BLE001
+                        pass
+                    os._exit(code)
+            pids[pid] = (w, path)
+        deadline = time.time() + timeout
+        status = {}
+        pending = set(pids)
+        while pending:
+            for pid in list(pending):
+                got, st = os.waitpid(pid, os.WNOHANG)
+                if got == pid:
+                    pending.discard(pid)
+                    status[pid] = st
+            if pending:
+                if time.time() > deadline:
+                    raise RuntimeError("fork_map: %d of %d workers still running after %.0f s (%s)" % (len(pending), len(pids), timeout, getattr(fn, "__name__", fn)))
+                time.sleep(0.02)
+        out = [None] * len(items)
+        for pid, (w, path) in pids.items():
+            st = status[pid]
+            if not (os.WIFEXITED(st) and os.WEXITSTATUS(st) == 0 and os.path.exists(path)):
+                raise RuntimeError("fork_map: worker %d of %s ended abnormally (wait status %d)" % (w, getattr(fn, "__name__", fn), st))
+            with open(path, "rb") as f:
+                payload = pickle.load(f)
+            if payload[0] != "ok":
+                raise RuntimeError("fork_map: %s raised in a worker: %s\n%s" % (getattr(fn, "__name__", fn), payload[1], payload[2]))
+            for i, v in payload[1]:
+                out[i] = v
+        return out
+    finally:
+        for pid in pids:
+            try:
+                os.kill(pid, signal.SIGKILL)
+            except OSError:
+                pass
+        for pid in pids:
+            try:
+                os.waitpid(pid, 0)
+            except OSError:
+                pass
+        import shutil
+        shutil.rmtree(outdir, ignore_errors=True)
+
+
 def parallel_map(fn, items, nproc=None, chunksize=None):
-    """Run fn over items in a fork pool (real-code evaluation is CPU bound)."""
-    import multiprocessing as mp
+    """Run fn over items in forked workers (real-code evaluation is CPU bound); few items are evaluated in-process."""
     items = list(items)
     if nproc is None:
         nproc = min(16, os.cpu_count() or 1)
     if len(items) < 64 or nproc <= 1:
         return [fn(x) for x in items]
-    if chunksize is None:
-        chunksize = max(1, len(items) // (nproc * 8))
-    ctx = mp.get_context("fork")
-    with ctx.Pool(nproc) as pool:
-        return pool.map(fn, items, chunksize=chunksize)
+    return fork_map(fn, items, nproc, chunksize)
